@@ -12,6 +12,17 @@
         #[verifier::external_body]
         fn try_from(x: &'a BigInt) -> (r: Result<usize, TryFromBigIntError>) { unimplemented!() }
     }
+    impl<'a> TryFromSpecImpl<&'a BigInt> for u64 {
+        open spec fn obeys_try_from_spec() -> bool { true }
+        open spec fn try_from_spec(x: &'a BigInt) -> Result<u64, TryFromBigIntError> {
+            if 0 <= x@ <= u64::MAX { Ok(x@ as u64) } else { Err(TryFromBigIntError { _p: 0 }) }
+        }
+    }
+    impl<'a> TryFrom<&'a BigInt> for u64 {
+        type Error = TryFromBigIntError;
+        #[verifier::external_body]
+        fn try_from(x: &'a BigInt) -> (r: Result<u64, TryFromBigIntError>) { unimplemented!() }
+    }
     impl<'a> TryFromSpecImpl<&'a BigInt> for u32 {
         open spec fn obeys_try_from_spec() -> bool { true }
         open spec fn try_from_spec(x: &'a BigInt) -> Result<u32, TryFromBigIntError> {
